@@ -103,14 +103,14 @@ type Node struct {
 }
 
 type Cluster struct {
-	opt    Options
-	nodes  []*Node
-	bag    []pb.Message
-	cut    map[[2]uint64]bool
-	w      *bufio.Writer
-	line   int
-	stats  map[string]int
-	panics []string
+	opt          Options
+	nodes        []*Node
+	bag          []pb.Message
+	cut          map[[2]uint64]bool
+	w            *bufio.Writer
+	line         int
+	stats        map[string]int
+	panics       []string
 	panicsLogged int
 }
 
@@ -493,13 +493,13 @@ type Event struct {
 }
 
 type Line struct {
-	L    int     `json:"l"`
-	Ev   string  `json:"ev"`
-	Node int     `json:"node"`
-	Arg  Event   `json:"arg"`
-	OK   bool    `json:"ok"`
-	N    []NodeD `json:"n"`
-	Msgs []MsgD  `json:"msgs,omitempty"`
+	L    int      `json:"l"`
+	Ev   string   `json:"ev"`
+	Node int      `json:"node"`
+	Arg  Event    `json:"arg"`
+	OK   bool     `json:"ok"`
+	N    []NodeD  `json:"n"`
+	Msgs []MsgD   `json:"msgs"`
 	Opt  *Options `json:"opt,omitempty"`
 }
 
@@ -513,6 +513,7 @@ func (c *Cluster) emit(e Event, ok bool) {
 	for _, n := range c.nodes {
 		ln.N = append(ln.N, c.project(n))
 	}
+	ln.Msgs = []MsgD{}
 	if c.opt.Msgs {
 		ln.Msgs = c.bagD()
 	}
@@ -536,11 +537,20 @@ func (c *Cluster) emit(e Event, ok bool) {
 }
 
 func (c *Cluster) bagD() []MsgD {
-	r := make([]MsgD, 0, len(c.bag))
-	for _, m := range c.bag {
-		r = append(r, describe(m))
+	type kd struct {
+		k string
+		d MsgD
 	}
-	sort.Slice(r, func(i, j int) bool { return r[i].key() < r[j].key() })
+	ks := make([]kd, 0, len(c.bag))
+	for _, m := range c.bag {
+		d := describe(m)
+		ks = append(ks, kd{d.key(), d})
+	}
+	sort.Slice(ks, func(i, j int) bool { return ks[i].k < ks[j].k })
+	r := make([]MsgD, 0, len(ks))
+	for _, x := range ks {
+		r = append(r, x.d)
+	}
 	return r
 }
 
